@@ -360,6 +360,7 @@ func init() {
 		o.MinSites(2)
 	})
 
+	reg("C11", "C11.11", "T9,T11", "writer and reader agree record by record: one length-delimited message of the same type per entry, decoded into an object of its own and filed under the key computed from that record", recordFramingRule)
 	reg("C11", "C11.6", "T11,T1", "matcher compatibility on encode/decode keeps every matcher set: encode fills the legacy field on a clone; decode moves the legacy field only when no set exists", func(o *Ob) {
 		e := o.E
 		pp := o.Fn("am/silence.postprocessUnmarshalledSilence")
@@ -502,4 +503,49 @@ func init() {
 		snapshotPathAgreementRule(o)
 		o.MinSites(4)
 	})
+}
+
+// recordFramingRule (C11.11): writer and reader of a snapshot (and of a gossip payload) agree record by
+// record.  The writer puts one length-delimited message of type M per entry (C09.4 / C10 encoders); the
+// reader must take one length-delimited message of the same type M per round, into an object of its own per
+// record (an object reused across rounds would make every map entry the last record), and file it under the
+// key computed from that very record.
+func recordFramingRule(o *Ob) {
+	e := o.E
+	for _, sp := range []struct{ pkg, enc, key string }{
+		{"am/silence", "am/silence.marshalMeshSilence", `^&\w+:am/silence/silencepb\.MeshSilence\.Silence\.Id$`},
+		{"am/nflog", "am/nflog.marshalMeshEntry", `^am/nflog\.stateKey\(conv:string\(&\w+:am/nflog/nflogpb\.MeshEntry\.Entry\.GroupKey\), &\w+:am/nflog/nflogpb\.MeshEntry\.Entry\.Receiver\)$`},
+	} {
+		enc := o.Fn(sp.enc)
+		mt := o.One(e.Calls(enc, "google.golang.org/protobuf/encoding/protodelim.MarshalTo"), "enc|"+sp.pkg, "the encoder must write a length-delimited record", enc)
+		wt := typeKey(mt.Common().Args[1].(*ssa.MakeInterface).X.Type())
+		dec := o.Fn(sp.pkg + ".decodeState")
+		// (the package function, or the method of an options value: the message is the last argument)
+		um := o.One(e.Calls(dec, `~google\.golang\.org/protobuf/encoding/protodelim\.UnmarshalFrom|\(google\.golang\.org/protobuf/encoding/protodelim\.UnmarshalOptions\)\.UnmarshalFrom`), "dec|"+sp.pkg, "the decoder must read length-delimited records", dec)
+		mi, ok := um.Common().Args[len(um.Common().Args)-1].(*ssa.MakeInterface)
+		if !o.Check(ok, "dec-msg|"+sp.pkg, "the decoded message cannot be resolved", um) {
+			continue
+		}
+		o.Site(um, sp.pkg+": record type written "+wt+", read "+typeKey(mi.X.Type()))
+		o.Check(typeKey(mi.X.Type()) == wt, "type|"+sp.pkg, "the decoder reads records of type "+typeKey(mi.X.Type())+", the encoder writes "+wt, um)
+		obj, isAlloc := mi.X.(*ssa.Alloc)
+		l := e.LoopOf(um)
+		if o.Check(isAlloc && l != nil, "dec-fresh|"+sp.pkg, "each record must be decoded into an object of its own, inside the reading loop", um) {
+			o.Check(obj.Heap && l.Blocks[obj.Block().Index], "dec-fresh|"+sp.pkg, "the object records are decoded into is created once, outside the reading loop: every entry of the loaded state would be the last record", um)
+			n := 0
+			for _, in := range AllInstrs(dec) {
+				mu, ok := in.(*ssa.MapUpdate)
+				if !ok {
+					continue
+				}
+				n++
+				o.Site(mu, sp.pkg+": loaded["+clip(e.X(dec, mu.Key))+"] = record")
+				o.Check(mu.Value == ssa.Value(obj), "dec-value|"+sp.pkg, "what is filed in the loaded state is not the decoded record: "+clip(e.X(dec, mu.Value)), mu)
+				o.Check(regexpMatch(sp.key, e.X(dec, mu.Key)), "dec-key|"+sp.pkg, "a loaded record is filed under "+clip(e.X(dec, mu.Key))+", not under its own key", mu)
+				o.Check(l.Blocks[mu.Block().Index], "dec-loop|"+sp.pkg, "records are filed outside the reading loop", mu)
+			}
+			o.Check(n == 1, "dec-file|"+sp.pkg, "each decoded record must be filed in the loaded state, once", um)
+		}
+	}
+	o.MinSites(4)
 }
